@@ -27,10 +27,13 @@ import (
 	"time"
 )
 
-const (
-	verifDir = "/verif"
-	repoDir  = "/repo"
-	goBin    = "/opt/veriftools/go1.26.8/bin/go"
+const goBin = "/opt/veriftools/go1.26.8/bin/go"
+
+// verifDir and repoDir can be redirected (development copies); the registered
+// commands always use /verif and /repo.
+var (
+	verifDir = envOr("VERIF_DIR", "/verif")
+	repoDir  = envOr("VERIF_REPO", "/repo")
 )
 
 func fatal(code int, format string, a ...any) {
